@@ -5,8 +5,8 @@ CONSTANTS
   MaxFiles = 3
   Lens = {0, 1, 253, 254, 255, 256, 509, 510, 511}
   Types = {"D", "B"}
-  Names = {"X"}
-  Splits = {1, 254}
+  Names = {"X", "Y"}
+  Splits = {254}
 VIEW View
 INVARIANT RoundTripInv
 INVARIANT SplitIndependent
